@@ -784,7 +784,7 @@ namespace adept {
 	int dim;
 	static const int last = Rank-1;
 
-	ADEPT_ACTIVE_STACK->check_space(expr_cast<E>::n_active * dimensions_[0]);
+	ADEPT_ACTIVE_STACK->check_space(expr_cast<E>::n_active * dimensions_.size());
 	do {
 	  coords[last] = 0;
 	  rhs.set_location(coords, loc);
